@@ -368,37 +368,37 @@ def check_single(which, d, tl, ev):
     # terminal: the source's own, in its own instant
     want_term = None if term is None else (term[0], term[1])
     if (None if got_term is None else (got_term[0], got_term[1])) != want_term:
-        return ("terminal", f"terminal {got_term} but the source's is {want_term}")
+        return ("wrong-notification", f"terminal {got_term} but the source's is {want_term}")
     if term is not None and term[1] == "E" and got_term[2] != src_err("src"):
-        return ("terminal", f"error is not the source's error: {got_term[2]}")
+        return ("wrong-notification", f"error is not the source's error: {got_term[2]}")
     idx = [i for (i, t) in els]
     if which == "take":
         if term is None or term[1] == "E":
             return ("extra-element", f"elements {got} delivered although the source did not complete") if got else None
         T = term[0]
         if any(t != T for (t, k, v) in ev):
-            return ("timing", "take_last delivered something outside the completion instant")
+            return ("wrong-notification", "take_last delivered something outside the completion instant")
         young = [i for (i, t) in els if T - t < d]
         edge = [i for (i, t) in els if T - t == d]
         if got == young or got == edge + young:
             return None
-        kind = "lost-element" if len(got) < len(young) else ("extra-element" if len(got) > len(edge + young) else "content")
+        kind = "lost-element" if len(got) < len(young) else ("extra-element" if len(got) > len(edge + young) else "wrong-notification")
         return (kind, f"delivered {got}; younger than the duration: {young}; exactly as old as the duration: {edge}")
     # skip_last
     times = {i: t for (i, t) in els}
     if got != idx[: len(got)]:
-        return ("content", f"delivered {got}, not a prefix of the input {idx}")
+        return ("wrong-notification", f"delivered {got}, not a prefix of the input {idx}")
     last_t = None
     for (t, k, v) in ev:
         if k == "N" and t < times[v] + d:
-            return ("timing", f"element {v} (arrived {times[v]}) delivered at {t}, before it was as old as the duration {d}")
+            return ("wrong-notification", f"element {v} (arrived {times[v]}) delivered at {t}, before it was as old as the duration {d}")
     if term is not None and term[1] == "C":
         T = term[0]
         old = [i for (i, t) in els if T - t > d]
         edge = [i for (i, t) in els if T - t == d]
         if got == old or got == old + edge:
             return None
-        kind = "lost-element" if len(got) < len(old) else ("extra-element" if len(got) > len(old + edge) else "content")
+        kind = "lost-element" if len(got) < len(old) else ("extra-element" if len(got) > len(old + edge) else "wrong-notification")
         return (kind, f"delivered {got}; older than the duration at completion: {old}; exactly as old: {edge}")
     return None
 
